@@ -49,6 +49,7 @@ pub struct World {
     pub tokens: HashMap<[u8; 32], String>,
     pub counter: u64,
     pub step: usize,
+    pub keycheck: Option<String>,
 }
 
 const CLOCK_BASE: i64 = 1_700_000_000_000_000_000;
@@ -94,7 +95,7 @@ impl World {
         let mut w = World {
             base, cdb, sdb, server, devs, account_id,
             slots: HashMap::new(), fslots: HashMap::new(), fnames: HashMap::new(),
-            tokens: HashMap::new(), counter: 0, step: 0,
+            tokens: HashMap::new(), counter: 0, step: 0, keycheck: None,
         };
         let default = w.devs[0].bridge.account.lock().await.default_folder().await.unwrap();
         w.fslots.insert("0".to_string(), *default.id());
@@ -451,9 +452,64 @@ impl World {
                     "k" => res!(account.delete_folder(&fid).await),
                     "z" => res!(account.compact_folder(&fid).await),
                     _ => {
+                        use sos_login::DelegatedAccess;
                         self.counter += 1;
                         let key: AccessKey = secrecy::SecretString::new(format!("new-folder-password-{}", self.counter).into()).into();
-                        res!(account.change_folder_password(&fid, key).await)
+                        // what the old key opened before the change
+                        let storage = ClientStorage::new_unauthenticated(account.backend_target().await, &self.account_id).await.ok();
+                        let old_key = account.find_folder_password(&fid).await.ok().flatten();
+                        let old_vault = match &storage { Some(s) => s.read_vault(&fid).await.ok(), None => None };
+                        let r = account.change_folder_password(&fid, key).await;
+                        let mut report = String::from("nokey");
+                        if let (Some(old_key), Some(old_vault), Some(storage)) = (old_key, old_vault, storage) {
+                            let new_key = account.find_folder_password(&fid).await.ok().flatten();
+                            let new_vault = storage.read_vault(&fid).await.ok();
+                            // an access point holding the OLD header (old salt) unlocked with the OLD key
+                            let mut ap_old = sos_backend::AccessPoint::from_vault(old_vault);
+                            let old_ok_before = ap_old.unlock(&old_key).await.is_ok();
+                            let mut opens = 0usize;
+                            let mut total = 0usize;
+                            let (mut old_unlock, mut new_unlock) = ("n/a", "n/a");
+                            if let Some(nv) = new_vault {
+                                for (_, commit) in nv.iter() {
+                                    total += 1;
+                                    if ap_old.decrypt_secret(commit, None).await.is_ok() { opens += 1; }
+                                }
+                                if let Some(aead) = nv.header().meta() {
+                                    total += 1;
+                                    if ap_old.decrypt_meta(aead).await.is_ok() { opens += 1; }
+                                }
+                                let mut ap1 = sos_backend::AccessPoint::from_vault(nv.clone());
+                                old_unlock = if ap1.unlock(&old_key).await.is_ok() { "ok" } else { "err" };
+                                if let Some(nk) = &new_key {
+                                    let mut ap2 = sos_backend::AccessPoint::from_vault(nv);
+                                    new_unlock = if ap2.unlock(nk).await.is_ok() { "ok" } else { "err" };
+                                }
+                            }
+                            // every entry of the rewritten event log
+                            if let Ok(folder) = account.folder(&fid).await {
+                                let log = folder.event_log();
+                                let log = log.read().await;
+                                let stream = log.event_stream(false).await;
+                                pin_mut!(stream);
+                                while let Some(Ok((_, ev))) = stream.next().await {
+                                    match ev {
+                                        WriteEvent::CreateSecret(_, c) | WriteEvent::UpdateSecret(_, c) => {
+                                            total += 1;
+                                            if ap_old.decrypt_secret(&c, None).await.is_ok() { opens += 1; }
+                                        }
+                                        WriteEvent::SetVaultMeta(a) => {
+                                            total += 1;
+                                            if ap_old.decrypt_meta(&a).await.is_ok() { opens += 1; }
+                                        }
+                                        _ => {}
+                                    }
+                                }
+                            }
+                            report = format!("old_before={} old_unlock={old_unlock} new_unlock={new_unlock} blobs={total} old_opens={opens}", if old_ok_before { "ok" } else { "err" });
+                        }
+                        self.keycheck = Some(report);
+                        res!(r)
                     }
                 }
             }
@@ -489,6 +545,9 @@ pub fn run(text: &str, cases_path: &str, out: &mut impl Write) {
             for (n, op) in hist.iter().enumerate() {
                 let res = w.step(op).await;
                 writeln!(out, "{id} {} op={op} res={res}", n + 1).unwrap();
+                if let Some(k) = w.keycheck.take() {
+                    writeln!(out, "{id} !{} keycheck {k}", n + 1).unwrap();
+                }
                 if !quiet || n + 1 == hist.len() {
                     let mut lines = vec![];
                     for d in 0..w.devs.len() {
